@@ -329,12 +329,12 @@ Definition finish_attribute (m : M) : M :=
         upd (fun x => x <| attr_name := [] |> <| tag_attrs ::= (fun l => l ++ [(name, attr_value c)]) |>
                         <| attr_value := [] |>) m
     else
-      (* xml: the raw new name is compared with the LOCAL parts of the stored names *)
-      if existsb (fun a => str_eqb (snd (qname_split (fst a))) name) (tag_attrs c) then
+      (* xml: duplicate = same prefix and same local name, i.e. the same raw name (process_qname is injective) *)
+      if existsb (fun a => str_eqb (fst a) name) (tag_attrs c) then
         upd (fun x => x <| attr_name := [] |> <| attr_value := [] |>) (err m)
       else
         let '(p, l) := qname_split name in
-        let front := str_eqb l xmlns_str || match p with Some p' => str_eqb p' xmlns_str | None => false end in
+        let front := match p with Some p' => str_eqb p' xmlns_str | None => str_eqb l xmlns_str end in
         upd (fun x => x <| attr_name := [] |>
                         <| tag_attrs ::= (fun al => if front then (name, attr_value c) :: al else al ++ [(name, attr_value c)]) |>
                         <| attr_value := [] |>) m
